@@ -302,6 +302,7 @@ fn histories(em: &mut Em, rng: &mut Rng, n: usize, geos: &[(u32, u32)]) {
                 8 => segs.push(Seg::Select(rng.pick(&["@", "G", "8", "x"]).to_string())),
                 _ => segs.push(Seg::Clear) } }
         let segs2 = segs.clone();
+        em.arm(format!("{}x{} history of {} segments (bytes/API/select)", c, l, segs.len()));
         let r = safe(move || { let scr = Arc::new(Mutex::new(Screen::new(c, l))); { let mut bp = ByteParser::new(scr.clone());
             for sg in segs2.iter() { match sg { Seg::Bytes(b) => bp.feed(b), Seg::Api(o) => { let mut g = scr.lock().unwrap(); o.apply(&mut g); } Seg::Select(cde) => bp.select_other_charset(cde), Seg::Clear => { scr.lock().unwrap().dirty.clear(); } } } }
             let g = scr.lock().unwrap(); fork(&g) });
@@ -327,6 +328,7 @@ fn c10(em: &mut Em, rng: &mut Rng, thorough: bool) {
         let len = 1 + rng.below(8) as usize; let mut a = fork(&s); let mut ops = Vec::new(); { let mut t = fork(&s); for _ in 0..len { let o = gen_op(rng, &t); let oc = o.clone(); let _ = safe(|| oc.apply(&mut t)); ops.push(o); } }
         let mask: Vec<bool> = (0..=len).map(|_| rng.chance(1, 2)).collect();
         let ops2 = ops.clone(); let mut b = fork(&s);
+        em.arm(format!("{}x{} ops {:?} with display() interposed", c, l, ops));
         let ra = safe(|| { for o in ops.iter() { o.apply(&mut a); } snapshot(&a) });
         let rb = safe(|| { for (i, o) in ops2.iter().enumerate() { if mask[i] { b.display(); if mask[(i + 1) % mask.len()] { b.display(); } } o.apply(&mut b); } if mask[len] { b.display(); } snapshot(&b) });
         em.bump("purity_pairs");
@@ -426,6 +428,7 @@ fn c19(em: &mut Em, rng: &mut Rng, thorough: bool) {
         let text = format!("{}{};{}{}", intro, code, payload, term);
         let mut pre = fork(&base); pre.title = "old-title".into(); pre.icon_name = "old-icon".into();
         let before = snapshot(&pre);
+        em.arm(format!("OSC text {:?}", text));
         let chunks: Vec<String> = { let cs: Vec<char> = text.chars().collect(); let mut v = Vec::new(); let mut i = 0; while i < cs.len() { let k = if rng.chance(1, 2) { cs.len() } else { 1 + rng.below(3) as usize }; let e = (i + k).min(cs.len()); v.push(cs[i..e].iter().collect()); i = e; } v };
         let r = safe(move || { let m = Arc::new(Mutex::new(pre)); { let mut p = Parser::new(m.clone()); for ch in chunks { p.feed(ch); } p.feed("!".into()); } let g = m.lock().unwrap(); fork(&g) });
         em.bump("osc_cases");
@@ -454,6 +457,7 @@ pub fn events_opt(em: &mut Em, rng: &mut Rng, gen: &mut dyn FnMut(&mut Rng) -> O
         let cs: Vec<char> = text.chars().collect();
         let mut chunks: Vec<String> = Vec::new(); let mut i = 0; while i < cs.len() { let k = if rng.chance(1, 3) { cs.len() } else { 1 + rng.below(4) as usize }; let e = (i + k).min(cs.len()); chunks.push(cs[i..e].iter().collect()); i = e; }
         let ch2 = chunks.clone();
+        em.arm(format!("Parser utf8={} chunks {:?}", utf8, chunks));
         let r = safe(move || { let rec = Arc::new(Mutex::new(Recorder::default())); { let mut p = Parser::new(rec.clone()); p.set_use_utf8(utf8); for c in ch2 { p.feed(c); } } let g = rec.lock().unwrap(); g.ops.clone() });
         em.o.u(5); em.o.i(em.id);
         em.o.u(chunks.len() as u32 + 1);
@@ -521,6 +525,7 @@ fn c11(em: &mut Em, rng: &mut Rng, thorough: bool) {
     for bs in cases.iter() {
         if !em.next_id() { continue; }
         // model-free: every 2-way split (+ sentinel) against Rust's own lossy decoder
+        em.arm(format!("ByteParser bytes {:02x?} under all 2-way splits", bs));
         let mut full = bs.clone(); full.push(b'!');
         let lossy = String::from_utf8_lossy(&full).to_string();
         let strip = |s: &str| -> String { s.strip_prefix('\u{feff}').unwrap_or(s).to_string() };
@@ -569,6 +574,7 @@ fn c02(em: &mut Em, rng: &mut Rng, thorough: bool) {
         if !em.next_id() { continue; }
         let (c, l) = *rng.pick(geos); let utf8 = rng.chance(2, 3);
         let tl = 2 + rng.below(16) as usize; let text = gen_stream(rng, tl); let cs: Vec<char> = text.chars().collect();
+        em.arm(format!("{}x{} utf8={} stream {:?} under chunkings", c, l, utf8, text));
         let whole = run_chars(c, l, utf8, &[text.clone()]);
         em.bump("streams");
         // every 2-way split at a character boundary, empty chunks, char-at-a-time, random k-way
@@ -623,6 +629,7 @@ fn c01(em: &mut Em, rng: &mut Rng, thorough: bool) {
         let mut chunks: Vec<Vec<u8>> = Vec::new(); let mut p = 0; while p < bytes.len() { let k2 = 1 + rng.below(9) as usize; let e = (p + k2).min(bytes.len()); chunks.push(bytes[p..e].to_vec()); p = e; }
         let tail = gen_stream(rng, 3).into_bytes();
         let ch2 = chunks.clone(); let tail2 = tail.clone();
+        em.arm(format!("{}x{} utf8={} byte chunks {:02x?} then display() then {:02x?}", c, l, utf8, chunks, tail));
         let r = safe(move || { let m = Arc::new(Mutex::new(Screen::new(c, l))); let mut bp = ByteParser::new(m.clone()); if !utf8 { bp.select_other_charset("@"); }
             for x in ch2.iter() { bp.feed(x); } let d = m.lock().unwrap().display(); let n1 = d.len(); bp.feed(&tail2); let d2 = m.lock().unwrap().display(); let ll = m.lock().unwrap().lines; drop(bp); (n1, d2.len(), ll) });
         em.bump("byte_cases");
@@ -632,6 +639,7 @@ fn c01(em: &mut Em, rng: &mut Rng, thorough: bool) {
         if !em.next_id() { continue; }
         let ops: Vec<Op> = { let t = Screen::new(c, l); (0..(1 + rng.below(if c > 40 { 8 } else { 24 }))).map(|_| match rng.below(8) { 0 => Op::Display, 1 => Op::Resize(Some(1 + rng.below(l as u64 + 3) as u32), Some(1 + rng.below(c as u64 + 3) as u32)), _ => gen_op(rng, &t) }).collect() };
         let ops2 = ops.clone();
+        em.arm(format!("{}x{} API sequence {:?}", c, l, ops));
         let r = safe(move || { let mut s = Screen::new(c, l); for o in ops2.iter() { o.apply(&mut s); } s.display().len() == s.lines as usize });
         em.bump("api_cases");
         if r.is_none() { em.fail("C01", format!("panic: {}x{} API sequence {:?}", c, l, ops)); }
